@@ -201,9 +201,7 @@ def run(ctx: Context, rep) -> None:
         "receives <dataset root> / <field>, never the field alone")
     field_names = {f for _c, f in fields}
     n_sinks = check_join(ctx, rep, field_names)
-    if n_sinks < 5:
-        raise AnalysisError(f"C17.join: {n_sinks} metadata-derived read "
-                            "sinks found, floor 5")
+    rep.floor("C17.join", n_sinks, 5, "instances")
 
     # ---------------------------------------------------------------------
     rep.rule(
